@@ -766,3 +766,6 @@ Definition ok03d (i : binput) (o : bobs) : bool :=
           end
   end.
 Definition check03d (c : binput * bobs) : bool * bool * nat := let '(i, o) := c in (agree i o, ok_bus i o && ok03d i o, 0).
+(* C05: "the bus remains fully usable": beyond the dispatch / bracket / panic-report clauses, a thread that never comes
+   back (e.g. from a publish made by the panic handler) is a failure unless it is the documented self-delivery exception *)
+Definition check05 (c : binput * bobs) : bool * bool * nat := let '(i, o) := c in (agree i o, ok_bus i o && ok03d i o, 0).
